@@ -655,6 +655,7 @@ class FnEmitter:
     def __init__(s, em, f):
         s.em = em; s.f = f
         s.regs = {}     # llvm name -> (cname, type)
+        s.objty = {}    # llvm pointer register -> element bits of the backing array of the alloca it points into
         s.lines = []
         s.decls = []
         s.tmpn = 0
@@ -863,11 +864,13 @@ class FnEmitter:
         if pad % esz: pad = 0
         s.decls.append('%s %s_mem[%d];' % (ect, d, cnt + pad // esz))
         s.emit('%s = (ptr_t)%s_mem + %d;' % (d, d, pad))
+        s.objty[dest] = esz * 8
 
     def i_bitcast(s, p, dest):
         t1 = p.parse_type(); v = p.parse_value(t1); p.expect('to'); t2 = p.parse_type()
         d = s.defreg(dest, t2)
         if isinstance(t1, PtrTy) and isinstance(t2, PtrTy):
+            if v[0] == 'local' and v[1] in s.objty: s.objty[dest] = s.objty[v[1]]
             s.emit('%s = %s;' % (d, s.V(v))); return
         s.bitcast_val(d, t2, s.V(v), t1)
 
@@ -920,6 +923,7 @@ class FnEmitter:
             it = p.parse_type(); iv = p.parse_value(it)
             idx.append((it, s.V(iv), iv))
         d = s.defreg(dest, PtrTy(None))
+        if base[0] == 'local' and base[1] in s.objty: s.objty[dest] = s.objty[base[1]]
         s.emit('%s = %s;' % (d, s.em.gep_expr(srcty, s.V(base), idx)))
 
     def i_load(s, p, dest):
@@ -935,6 +939,7 @@ class FnEmitter:
         P_ = s.V(ptr)
         s.align_check(P_, align, ty)
         if isinstance(ty, VecTy):
+            s.cur_obj_bits = s.objty.get(ptr[1]) if ptr[0] == 'local' else None
             s.vec_load(d, ty, P_)
         else:
             s.emit('%s = *(%s*)(%s);' % (d, s.em.cty(ty), P_))
@@ -944,8 +949,8 @@ class FnEmitter:
         if not isinstance(ty.elem, (IntTy, FloatTy, PtrTy)): raise Unsupported("memory access of %r" % (ty,))
         lb = 64 if isinstance(ty.elem, PtrTy) else ty.elem.bits
         if lb not in (8, 16, 32, 64): raise Unsupported("memory access of %r" % (ty,))
-        db = s.em.data_bits
-        if isinstance(ty.elem, IntTy) and lb > db: return lb, lb // db, db
+        db = getattr(s, 'cur_obj_bits', None) or s.em.data_bits
+        if isinstance(ty.elem, IntTy) and lb > db and db >= 8: return lb, lb // db, db
         return lb, 1, lb
 
     def vec_load(s, d, ty, P_):
@@ -987,6 +992,7 @@ class FnEmitter:
         P_ = s.V(ptr)
         s.align_check(P_, align, ty)
         if isinstance(ty, VecTy):
+            s.cur_obj_bits = s.objty.get(ptr[1]) if ptr[0] == 'local' else None
             s.vec_store(ty, P_, s.V(v))
         else:
             s.emit('*(%s*)(%s) = %s;' % (s.em.cty(ty), P_, s.V(v)))
@@ -1263,6 +1269,13 @@ class FnEmitter:
         call = '%s(%s)' % (ext, ', '.join(A))
         s.emit(('%s = %s;' % (d, call)) if d else call + ';')
 
+    def word_bits(s, *ptrs):
+        """element width used for word-wise copies: that of the local array a pointer is known to point into,
+        else the unit's data width."""
+        for v in ptrs:
+            if v[0] == 'local' and v[1] in s.objty: return s.objty[v[1]]
+        return s.em.data_bits
+
     def intrinsic(s, name, rt, T, A, d, rawargs):
         em = s.em
         if name.startswith(('llvm.lifetime.', 'llvm.experimental.noalias.scope.decl', 'llvm.dbg.', 'llvm.assume', 'llvm.invariant.')):
@@ -1271,11 +1284,12 @@ class FnEmitter:
         if name.startswith('llvm.memcpy.') or name.startswith('llvm.memmove.'):
             fn = 'memmove' if 'memmove' in name else 'memcpy'
             ln = rawargs[2][1]
-            wb = em.data_bits // 8
+            wbits = s.word_bits(rawargs[0][1], rawargs[1][1])
+            wb = wbits // 8
             if ln[0] == 'iconst' and ln[1] % wb == 0 and 0 < ln[1] // wb <= 8192:
                 # constant-length copy of whole data words: word-by-word moves (same effect as memcpy on whole
                 # elements; avoids CBMC's byte-level memcpy model)
-                n = ln[1] // wb; ct = 'u%d' % em.data_bits
+                n = ln[1] // wb; ct = 'u%d' % wbits
                 if fn == 'memcpy':
                     s.emit('{ ptr_t cd = %s, cs = %s; for (u32 ck = 0; ck < %du; ck++) ((%s*)cd)[ck] = ((%s*)cs)[ck]; }' % (A[0], A[1], n, ct, ct))
                 else:
@@ -1285,9 +1299,10 @@ class FnEmitter:
             s.emit('VERIF_%s(%s, %s, %s);' % (fn, A[0], A[1], A[2])); return
         if name.startswith('llvm.memset.'):
             ln = rawargs[2][1]; bv = rawargs[1][1]
-            wb = em.data_bits // 8
+            wbits = s.word_bits(rawargs[0][1])
+            wb = wbits // 8
             if ln[0] == 'iconst' and bv[0] == 'iconst' and ln[1] % wb == 0 and 0 < ln[1] // wb <= 8192:
-                n = ln[1] // wb; ct = 'u%d' % em.data_bits
+                n = ln[1] // wb; ct = 'u%d' % wbits
                 word = int.from_bytes(bytes([bv[1] & 255]) * wb, 'little')
                 s.emit('{ ptr_t cd = %s; for (u32 ck = 0; ck < %du; ck++) ((%s*)cd)[ck] = (%s)%dULL; }' % (A[0], n, ct, ct, word))
                 return
@@ -1391,6 +1406,20 @@ class FnEmitter:
                 sgn = em.sext_expr('%s.e[%d]' % (mk, i), mt.elem, 64)
                 s.emit('if (%s < 0) *(%s*)(%s + %d) = %s.e[%d];' % (sgn, ect, ptr, i * esz, vv, i))
             return
+        m = re.match(r'llvm\.x86\.avx512\.vpermi2var\.(ps|pd|d|q|hi|qi)\.(128|256|512)$', name)
+        if m:
+            # result lane i = (idx[i] bit log2(N)) ? b[idx[i] mod N] : a[idx[i] mod N]      (Intel SDM VPERMI2*)
+            ty = rt; a = s.mat(A[0], ty); ix = s.mat(A[1], T[1]); b = s.mat(A[2], ty); N = ty.n
+            for i in range(N):
+                s.emit('%s.e[%d] = (%s.e[%d] & %d) ? %s.e[%s.e[%d] & %d] : %s.e[%s.e[%d] & %d];' % (d, i, ix, i, N, b, ix, i, N - 1, a, ix, i, N - 1))
+            return
+        m = re.match(r'llvm\.x86\.avx512\.permvar\.(sf|df|si|di|hi|qi)\.(128|256|512)$', name) or re.match(r'llvm\.x86\.avx2\.perm(ps|d)$', name)
+        if m:
+            # result lane i = a[idx[i] mod N]
+            ty = rt; a = s.mat(A[0], ty); ix = s.mat(A[1], T[1]); N = ty.n
+            for i in range(N):
+                s.emit('%s.e[%d] = %s.e[%s.e[%d] & %d];' % (d, i, a, ix, i, N - 1))
+            return
         raise Unsupported("intrinsic %s" % name)
 
 
@@ -1454,12 +1483,12 @@ for _fn in ('sin','cos','tan','asin','acos','atan','sinh','cosh','tanh','asinh',
 def emit_global(em, name, g):
     ty, init, is_const, align = g
     size, al = size_align(ty)
-    leaf = leaf_scalar(ty) if not isinstance(ty, (IntTy, FloatTy, PtrTy)) else ty
     cn = 'g_' + cname(name)
+    q = 'const ' if is_const else ''     # const matters: goto-instrument --dfcc havocs every non-const static at entry
     if init is None:
-        return 'extern u8 %s[%d];' % (cn, size)
+        return 'extern %su8 %s[%d];' % (q, cn, size)
     if init[0] == 'zero':
-        return 'u8 %s[%d] __attribute__((aligned(64)));' % (cn, size)
+        return '%su8 %s[%d] __attribute__((aligned(64)))%s;' % (q, cn, size, ' = {0}' if is_const else '')
     if init[0] == 'cstr':
         raw = init[1][2:-1]
         bs = []
@@ -1469,9 +1498,9 @@ def emit_global(em, name, g):
                 bs.append(int(raw[i+1:i+3], 16)); i += 3
             else:
                 bs.append(ord(raw[i])); i += 1
-        return 'u8 %s[%d] = {%s};' % (cn, size, ','.join(map(str, bs)))
+        return '%su8 %s[%d] = {%s};' % (q, cn, size, ','.join(map(str, bs)))
     ct = em.cty(ty)
-    return '%s %s = %s;' % (ct, cn, em.val(init, None).replace('((%s)' % ct, '(', 1) if False else _static_init(em, init))
+    return '%s%s %s = %s;' % (q, ct, cn, _static_init(em, init))
 
 def _static_init(em, v):
     kind, data, ty = v
@@ -1495,7 +1524,7 @@ def parse_contract_file(path):
         if cur: contract_text[cur] += line
     return contract_text
 
-def translate(mod, entries, atoms=False, contracts=None, data_bits=32):
+def translate(mod, entries, atoms=False, contracts=None, data_bits=32, param_bits=None):
     """Translate `entries` (names without '@') and everything they call from parsed module `mod`.
     contracts: {c function name: clause text} spliced between declarator and body.
     Returns (c_text_without_prelude, info dict)."""
@@ -1516,6 +1545,8 @@ def translate(mod, entries, atoms=False, contracts=None, data_bits=32):
             if n is None: n = '%' + str(i)
             fe.regs[n] = (fe.regname(n), t)
             params.append('%s %s' % (em.cty(t), fe.regname(n)))
+            if param_bits and fname == '@' + entries[0] and i < len(param_bits) and param_bits[i] and isinstance(t, PtrTy):
+                fe.objty[n] = param_bits[i]    # element width of the caller's buffer behind this pointer
         fe.translate()
         done[fname] = (fe, params)
         order.append(fname)
